@@ -199,6 +199,8 @@ def compare_program(t, n):
 
 
 def run(chk, rebaseline=False):
+    # C01_REBASELINE=1 rewrites corpus/C01/known_deviations.json from this run (use on the pinned tree only)
+    rebaseline = rebaseline or bool(os.environ.get("C01_REBASELINE"))
     chk.assumptions = [
         "M1 is proved over an abstract IEEE signature under four comparison laws (no NaN compares, trichotomy, < excludes ==, string order "
         "asymmetric); ToNumber(string), Number::toString, ToInt32 are parameters shared by both sides (C15)",
